@@ -41,6 +41,18 @@ func checkCancelledFlagOnlyByCancel(p *Prog, r *Report, rule string, only func(*
 			if fs.Fn.Name() == "Cancel" && recvNamedOf(fs.Fn) == nt {
 				continue
 			}
+			// a helper that only Cancel (of this type) calls
+			if cs := p.callersOf(fs.Fn); len(cs) > 0 {
+				only := true
+				for _, c := range cs {
+					if !(c.Caller.Name() == "Cancel" && recvNamedOf(c.Caller) == nt) {
+						only = false
+					}
+				}
+				if only {
+					continue
+				}
+			}
 			bad = shortName(fs.Fn) + " at " + p.Pos(posOf(fs.Store))
 		}
 		r.Check(bad == "", rule, "cancelled flag of "+nt.Obj().Name()+" is raised only by Cancel", p.Pos(f.Pos()), "stores of a non-false value only in Cancel",
